@@ -47,7 +47,7 @@ hs=[h for h in c['harnesses'] if h['name']!='H18_History']
 EV18=sum(1<<i for i in (0,1,2,3,4,6,7,9))
 for sh in range(3):
     h=H("H18_History",1,3,2,sh,3,"both",events=EV18); h['env']['mult']="2"; hs.append(h)
-for sh in range(8):
-    h=H("H18_History",1,4,2,sh,8,"thorough",events=EV18); h['env']['mult']="2"; hs.append(h)
+for sh in range(5): # 5 shards: every residue class of the first event contains an allowed event
+    h=H("H18_History",1,4,2,sh,5,"thorough",events=EV18); h['env']['mult']="2"; hs.append(h)
 c['harnesses']=hs
 json.dump(c,open('/verif/checks/C18.json','w'),indent=1)
